@@ -130,4 +130,5 @@ package rapid
 //@   ensures [ready-count-is-registered-count] r0 == nil && delta(SetInitAgentsCount) >= 1 ==> delta(SetInitAgentsCount) == 1 && delta(RegisteredSize) == 1 && lastarg(SetInitAgentsCount, 1) == lastret(RegisteredSize) && first(RegistrationTurnOff) < first(SetInitAgentsCount) && delta(AwaitInitAgentsReadyOK) == 1 && first(SetInitAgentsCount) < first(AwaitInitAgentsReady)
 //@   ensures [tagged-with-phase] delta(EvInitStartTaggedInit) == isInit(phase) && delta(EvInitStartTaggedInvoke) == isInvoke(phase) && delta(EvInitReportTaggedInit) == isInit(phase) && delta(EvInitReportTaggedInvoke) == isInvoke(phase) && delta(EvInitRuntimeDoneTaggedInit) == isInit(phase) * delta(EvInitRuntimeDone) && delta(EvInitRuntimeDoneTaggedInvoke) == isInvoke(phase) * delta(EvInitRuntimeDone)
 //@   ensures [error-status-has-a-type] delta(EvInitRuntimeDone) == 1 ==> (lastarg(EvInitRuntimeDone, 1).ErrorType == nil <==> delta(EvInitRuntimeDoneSuccess) == 1)
+//@   ensures [not-done-on-failure] r0 != nil ==> execCtx.initDone == old(execCtx.initDone)
 //@   ensures [generation-bumped] execCtx.runtimeDomainGeneration == (old(execCtx.runtimeDomainGeneration) + 1) % 4294967296
